@@ -1,1 +1,228 @@
-From Verif Require Import Base.I64 C06.Model.
+(* C06/Props.v — the property theorems for C06 (compile-time evaluation of const initializers
+   agrees with run-time evaluation), and nothing else.  Model: C06/Model.v (hand model of
+   const_eval.rs / emit/consts.rs / incan_core::strings, tied by the correspondence run). *)
+From Coq Require Import ZArith List Bool Lia.
+From Verif Require Import Base.I64 C06.Model C06.ProofsEval C06.ProofsStr C06.ProofsAgree C06.ProofsFold C06.ProofsProgram.
+Import ListNotations.
+Open Scope Z_scope.
+
+(* ---- small concrete programs used by the examples and the refutation witnesses *)
+Definition s_abc : str := [97; 98; 99].
+Definition s_abcdef : str := [97; 98; 99; 100; 101; 102].
+Definition e_int (n : Z) : expr := ELit (LInt n).
+Definition e_bin (op : binop) (l r : expr) : expr := ENode (NBin op) (ECons l (ECons r ENil)).
+Definition e_index (b i : expr) : expr := ENode NIndex (ECons b (ECons i ENil)).
+Definition pw0 : Z -> Z -> Z := fun _ _ => 0.
+Definition rho0 : name -> option value := fun _ => None.
+
+(* const C0: str = "abc"; const C1: str = C0 + "def"; const C2: str = C1[-1]; const C3: int = C4; const C4: int = 7 *)
+Definition prog_ok : list decl :=
+  [ mkdecl 0 (Some TStr) (ELit (LStr s_abc));
+    mkdecl 1 (Some TStr) (e_bin BAdd (EIdent 0) (ELit (LStr [100; 101; 102])));
+    mkdecl 2 (Some TStr) (e_index (EIdent 1) (ENode (NUn UNeg) (ECons (e_int 1) ENil)));
+    mkdecl 3 (Some TInt) (EIdent 4);
+    mkdecl 4 (Some TInt) (e_int 7) ].
+
+Example C06_nonvacuous :
+  exists s, check_all prog_ok = Some s /\ errs s = [] /\
+    lookup (cache s) 2 = Some (mkres TFStr true (Some (VStr [102]))) /\
+    lookup (cache s) 3 = Some (mkres TInt false (Some (VInt 7))) /\
+    (forall d, In d prog_ok -> unvalued_bound prog_ok (lookup (cache s)) (dinit d) = false) /\
+    vfrag prog_ok (lookup (cache s)) (e_index (EIdent 1) (e_int 9)) = true /\
+    cexpr prog_ok (lookup (cache s)) (e_index (EIdent 1) (e_int 9)) = PErr EIndexOOR.
+Proof.
+  eexists. split; [vm_compute; reflexivity|]. split; [reflexivity|]. split; [reflexivity|]. split; [reflexivity|].
+  split; [|split; vm_compute; reflexivity].
+  intros d H. cbn in H. repeat (destruct H as [<-|H]; [vm_compute; reflexivity|]). destruct H.
+Qed.
+
+(* P1  termination: the stated fuel (number of decls + 1 per top-level call) always suffices — the
+       evaluator never loops, whatever the dependency graph (cycles included) *)
+Theorem C06_fuel_suffices : forall ds, check_all ds <> None.
+Proof. intros ds. destruct (check_all_ok ds) as (s & E & _). congruence. Qed.
+Print Assumptions C06_fuel_suffices.
+
+(* P2  every dependency cycle is reported: a program whose const graph has a cycle (of any shape,
+       through any expression form) is never accepted *)
+Theorem C06_cycles_reported : forall ds s, check_all ds = Some s -> has_cycle ds -> errs s <> [].
+Proof. intros ds s E C H. exact (no_errors_no_cycle ds s E H C). Qed.
+Print Assumptions C06_cycles_reported.
+
+(* P2' on the complement of Known_C06_cycle_masked (some OTHER diagnostic was reported: an earlier
+       failing operand aborts the evaluation before the back edge is reached) the reported error
+       IS a cycle error; the class is inhabited *)
+Definition Known_C06_cycle_masked (s : cstate) : Prop := exists e, In e (errs s) /\ is_cycle_err e = false.
+Theorem C06_cycle_named_on_complement : forall ds s, check_all ds = Some s -> has_cycle ds ->
+  ~ Known_C06_cycle_masked s -> exists e, In e (errs s) /\ is_cycle_err e = true.
+Proof.
+  intros ds s E C NK. pose proof (C06_cycles_reported ds s E C) as NE.
+  destruct (errs s) as [|e t] eqn:Q; [congruence|]. exists e. split; [now left|].
+  destruct (is_cycle_err e) eqn:I; [reflexivity|]. exfalso. apply NK. exists e. rewrite Q. split; [now left|exact I].
+Qed.
+Print Assumptions C06_cycle_named_on_complement.
+
+(* const C0: int = zz1 + C1; const C1: int = zz2 + C0 *)
+Definition prog_masked : list decl :=
+  [ mkdecl 0 (Some TInt) (e_bin BAdd (EIdent (-1)) (EIdent 1));
+    mkdecl 1 (Some TInt) (e_bin BAdd (EIdent (-2)) (EIdent 0)) ].
+Theorem C06_cycle_named_refuted : exists ds s, check_all ds = Some s /\ has_cycle ds /\
+  Known_C06_cycle_masked s /\ existsb is_cycle_err (errs s) = false.
+Proof.
+  exists prog_masked. eexists. split; [vm_compute; reflexivity|]. split; [|split; [|reflexivity]].
+  - exists 0, [1; 0]. split; [discriminate|]. split; [|reflexivity].
+    split; [|split; [|exact I]].
+    + eexists. split; [reflexivity|]. split; [cbn; tauto|reflexivity].
+    + eexists. split; [reflexivity|]. split; [cbn; tauto|reflexivity].
+  - exists (ENonConst (-1)). split; [now left|reflexivity].
+Qed.
+Print Assumptions C06_cycle_named_refuted.
+
+(* P3  link: whatever the stateful evaluator caches/publishes is the pure evaluator's result over
+       the final cache (so the theorems below, stated on [cexpr], speak about check_program) *)
+Theorem C06_published_is_pure : forall ds s, check_all ds = Some s ->
+  forall n r, lookup (cache s) n = Some r ->
+    exists d, find_decl ds n = Some d /\ cexpr ds (lookup (cache s)) (dinit d) = POk r.
+Proof. exact cached_is_pure. Qed.
+Print Assumptions C06_published_is_pure.
+
+(* P4  value: outside Known_C06_slice_bound_unvalued, every value the compiler computes for a
+       const is the value its initializer denotes at run time (rho: any run-time environment in
+       which each const holds the value of its own initializer) *)
+Theorem C06_const_value_agrees : forall ds pw rho s,
+  check_all ds = Some s -> rt_consistent pw ds rho ->
+  (forall d, In d ds -> unvalued_bound ds (lookup (cache s)) (dinit d) = false) ->
+  forall n r v, lookup (cache s) n = Some r -> rval r = Some v ->
+    rho n = Some v /\ has_type v (rty r) = true.
+Proof.
+  intros ds pw rho s E RC NU n r v L V.
+  destruct (cache_agrees ds pw rho RC s E NU) as [EA CW].
+  split; [exact (EA n r v L V)|exact (CW n r L v V)].
+Qed.
+Print Assumptions C06_const_value_agrees.
+
+(* P4' the same for any expression over any environment that agrees with run time *)
+Theorem C06_const_value_agrees_expr : forall ds c pw rho e r v,
+  env_agree c rho -> unvalued_bound ds c e = false ->
+  cexpr ds c e = POk r -> rval r = Some v -> rt_eval pw rho e = RVal v.
+Proof. intros ds c pw rho e r v EA U C V. exact (proj1 (value_agrees ds c pw rho EA) e U r v C V). Qed.
+Print Assumptions C06_const_value_agrees_expr.
+
+(* const C0: str = "abcdef"[1 + 1 : ]   — published value "abcdef", run-time value "cdef" *)
+Definition e_slice_unvalued : expr :=
+  ENode (NSlice true false false) (ECons (ELit (LStr s_abcdef)) (ECons (e_bin BAdd (e_int 1) (e_int 1)) ENil)).
+Theorem C06_slice_bound_unvalued_refuted : exists ds s e,
+  check_all ds = Some s /\ find_decl ds 0 = Some (mkdecl 0 (Some TStr) e) /\
+  unvalued_bound ds (lookup (cache s)) e = true /\
+  lookup (cache s) 0 = Some (mkres TFStr true (Some (VStr s_abcdef))) /\
+  rt_eval pw0 rho0 e = RVal (VStr [99; 100; 101; 102]).
+Proof.
+  exists [mkdecl 0 (Some TStr) e_slice_unvalued]. eexists. exists e_slice_unvalued.
+  split; [vm_compute; reflexivity|]. repeat split; vm_compute; reflexivity.
+Qed.
+Print Assumptions C06_slice_bound_unvalued_refuted.
+
+(* P5  errors: on the valued strict fragment [vfrag] the compile-time diagnostic is exactly the
+       run-time exception: "string index out of range" <-> IndexError, "slice step cannot be
+       zero" <-> ValueError, and a successful evaluation means run time produces that value *)
+Theorem C06_const_error_agrees : forall ds c pw rho e,
+  env_agree c rho -> vfrag ds c e = true ->
+  match cexpr ds c e with
+  | POk r => exists v, rval r = Some v /\ rt_eval pw rho e = RVal v
+  | PErr EIndexOOR => rt_eval pw rho e = RRaise IndexError
+  | PErr EStepZero => rt_eval pw rho e = RRaise ValueError
+  | _ => True
+  end.
+Proof. intros ds c pw rho e EA V. exact (proj1 (error_agrees ds c pw rho EA) e V). Qed.
+Print Assumptions C06_const_error_agrees.
+
+Theorem C06_const_error_iff : forall ds c pw rho e,
+  env_agree c rho -> vfrag ds c e = true ->
+  (forall r, cexpr ds c e = POk r \/ cexpr ds c e = PErr EIndexOOR \/ cexpr ds c e = PErr EStepZero ->
+     (cexpr ds c e = PErr EIndexOOR <-> rt_eval pw rho e = RRaise IndexError) /\
+     (cexpr ds c e = PErr EStepZero <-> rt_eval pw rho e = RRaise ValueError)).
+Proof.
+  intros ds c pw rho e EA V r H. pose proof (C06_const_error_agrees ds c pw rho e EA V) as A.
+  destruct H as [H|[H|H]]; rewrite H in A |- *.
+  - destruct A as (v & _ & ->). split; split; discriminate.
+  - rewrite A. split; split; try discriminate; reflexivity.
+  - rewrite A. split; split; try discriminate; reflexivity.
+Qed.
+Print Assumptions C06_const_error_iff.
+
+(* const C0: str = "abc"[1 + 4]   — accepted; run time raises IndexError *)
+Theorem C06_error_operand_unvalued_refuted : exists ds s e,
+  check_all ds = Some s /\ find_decl ds 0 = Some (mkdecl 0 (Some TStr) e) /\ errs s = [] /\
+  vfrag ds (lookup (cache s)) e = false /\ rt_eval pw0 rho0 e = RRaise IndexError.
+Proof.
+  set (e := e_index (ELit (LStr s_abc)) (e_bin BAdd (e_int 1) (e_int 4))).
+  exists [mkdecl 0 (Some TStr) e]. eexists. exists e.
+  split; [vm_compute; reflexivity|]. repeat split; vm_compute; reflexivity.
+Qed.
+Print Assumptions C06_error_operand_unvalued_refuted.
+
+(* const C0: bool = false and "a" in "abc"[5]   — compile time: IndexError; run time: false *)
+Theorem C06_eager_and_or_refuted : exists ds s e,
+  check_all ds = Some s /\ find_decl ds 0 = Some (mkdecl 0 (Some TBool) e) /\ errs s = [EIndexOOR] /\
+  vfrag ds (lookup (cache s)) e = false /\ rt_eval pw0 rho0 e = RVal (VBool false).
+Proof.
+  set (e := e_bin BAnd (ELit (LBool false)) (e_bin BIn (ELit (LStr [97])) (e_index (ELit (LStr s_abc)) (e_int 5)))).
+  exists [mkdecl 0 (Some TBool) e]. eexists. exists e.
+  split; [vm_compute; reflexivity|]. repeat split; vm_compute; reflexivity.
+Qed.
+Print Assumptions C06_eager_and_or_refuted.
+
+(* P6  type (partial): every VALUE the evaluator computes inhabits the type it reports, for every
+       const of every program (so with P4 the run-time value has the published type).
+       Missing: results for which only a type is computed (numeric arithmetic, comparisons,
+       tuples, frozen collections) are not proved against the run-time value's type; for
+       collections the statement is false: *)
+Theorem C06_const_type_agrees_partial : forall ds s, check_all ds = Some s ->
+  forall n r v, lookup (cache s) n = Some r -> rval r = Some v -> has_type v (rty r) = true.
+Proof.
+  intros ds s E n r v L V.
+  destruct (check_all_ok ds) as (s' & E' & G & _). rewrite E in E'. injection E' as <-.
+  assert (forall rest pre, cache s = pre ++ rest -> forall m rm, lookup rest m = Some rm -> res_wt rm) as K.
+  { induction rest as [|[m0 r0] rest IH]; intros pre H m rm Lm; [discriminate|].
+    assert (cache s = (pre ++ [(m0, r0)]) ++ rest) as H2 by (rewrite H, <- app_assoc; reflexivity).
+    cbn in Lm. destruct (m0 =? m); [|exact (IH _ H2 _ _ Lm)]. injection Lm as <-.
+    destruct (g_topo _ _ G pre m0 r0 rest H) as (d & F & C).
+    exact (proj1 (results_well_typed ds (lookup rest) (IH _ H2)) _ _ C). }
+  exact (K (cache s) [] eq_refl n r L v V).
+Qed.
+Print Assumptions C06_const_type_agrees_partial.
+
+(* const C0 = [1, "a"]   — published type FrozenList[int] *)
+Theorem C06_hetero_collection_refuted : exists ds s e v,
+  check_all ds = Some s /\ find_decl ds 0 = Some (mkdecl 0 None e) /\ errs s = [] /\
+  hetero ds (lookup (cache s)) e = true /\
+  lookup (cache s) 0 = Some (mkres (TFList TInt) true None) /\
+  rt_eval pw0 rho0 e = RVal v /\ has_type v (TFList TInt) = false.
+Proof.
+  set (e := ENode NList (ECons (e_int 1) (ECons (ELit (LStr [97])) ENil))).
+  exists [mkdecl 0 None e]. eexists. exists e. eexists.
+  split; [vm_compute; reflexivity|]. repeat split; vm_compute; reflexivity.
+Qed.
+Print Assumptions C06_hetero_collection_refuted.
+
+(* P7  the compile-time string kernels are Python's indexing and slicing, for all strings and all
+       index / bound / step values (over Z: C05 owns the i64 overflow of huge steps) *)
+Theorem C06_string_kernels_python : forall s i a b k,
+  cindex s i = py_index s i /\
+  cslice s a b k = match py_slice s a b k with
+                   | None => SliceStepZero | Some (Some r) => SliceOk r | Some None => SliceOutOfFuel end /\
+  py_slice s a b k <> Some None.
+Proof. intros. split; [apply cindex_py|]. split; [apply cslice_py|apply py_slice_total]. Qed.
+Print Assumptions C06_string_kernels_python.
+
+(* P8  concat!: the two literals the emitter bakes into `concat!(a, b)` concatenate to the run-time
+       value of `l + r`; resolving the static-str consts never runs out of fuel *)
+Theorem C06_concat_fold_agrees : forall sds pw rho lits l r a b,
+  (forall n e v, lookup sds n = Some e -> rt_eval pw rho e = RVal v -> rho n = Some v) ->
+  const_string_literals sds = Some lits -> emit_add lits l r = Some (a, b) ->
+  rt_eval pw rho (ENode (NBin BAdd) (ECons l (ECons r ENil))) = RVal (VStr (a ++ b)).
+Proof. intros sds pw rho lits l r a b RC. apply emit_add_sound. exact RC. Qed.
+Print Assumptions C06_concat_fold_agrees.
+
+Theorem C06_concat_fold_fuel : forall sds, const_string_literals sds <> None.
+Proof. exact fold_fuel_suffices. Qed.
+Print Assumptions C06_concat_fold_fuel.
